@@ -33,7 +33,8 @@ func (c08) Meta() fw.Meta {
 			"layout mismatch => exit != 0 and destination byte-identical; repeating the command leaves the destination bytes unchanged; with -copy-nan a following diff over the same window/archives exits 0; glob: every matched relative path exists under the destination. " +
 			"non-trivial = scenario in which at least one slot was actually copied and at least one already-equal slot had to survive; distinct by scenario parameters." +
 			" Perturbations include one-ulp neighbours; in glob mode with the default window the first source is locked for 1.2-1.8 s while a fresh point is written to the last source." +
-			" When the destination is absent the requested method/xFilesFactor differ from the source header's in every 2nd case; every 10th glob case copies from a server whose file listing breaks off half way (exit 0 only if every matched file was copied).",
+			" When the destination is absent the requested method/xFilesFactor differ from the source header's in every 2nd case; every 10th glob case copies from a server whose file listing breaks off half way (exit 0 only if every matched file was copied)." +
+			" With an explicit window every 2nd case sets the sources' modification times two days back.",
 		Assumptions: []string{
 			"CLI commands read the wall clock; the oracle uses the now: value the command printed (per file), so the comparison is exact at that instant",
 			"value equality is numeric (+0 == -0), as the command's own difference test; NaN equals NaN",
